@@ -12,4 +12,5 @@ INVARIANT QueryReturnsText
 INVARIANT ReturnsOwnLine
 INVARIANT Aligned
 INVARIANT EmptyWhenSilent
+INVARIANT DataThenFault
 CHECK_DEADLOCK FALSE
